@@ -16,7 +16,7 @@ class C06(Prop):
     id = "C06"
     driver = "Broker"
     quick_n = 500
-    thorough_n = 20000
+    thorough_n = 100000
     rule = ("interest streams: cash of either sign (optionally with a margined position held, so that margin exists), "
             "reference rate in [-0.05, 0.24], markup in {0, .005, .01, .03}, interval from 1 s to 40 years cut into "
             "0-6 sub-intervals by accruing calls, query-only calls, repeated calls at the same instant, calls at an "
